@@ -263,7 +263,7 @@ def kernel_trace(args):
             e["st"] = si
             e["rep"] = rep
             ev.append(e)
-    cfg = dict(maxfun=1, det=False, reg=False, hasproj=False, onesample=True, valid=True, mayraise=False, wantopt=False, ref=0, zero=0.0, r1e10=1e10, rhobeg=1.0,
+    cfg = dict(maxfun=1, det=False, reg=False, hasproj=False, onesample=True, valid=True, mayraise=False, wantopt=False, ref=0, parallel=False, zero=0.0, r1e10=1e10, rhobeg=1.0,
                rhoenddoc=[1e-8] * 3, maxunsucc=10, resetrho=False, maxnpt=3)
     enc = recorder.encode_events(dict(cfg=cfg, ev=ev))
     return dict(id=tid, cfg=enc["cfg"], ev=enc["ev"], summary=dict(outcome="return", nev=len(ev), counts={"Kernel": len(ev)}), states=states)
